@@ -55,7 +55,12 @@ CFG = dict(
         "the connection lock, the promise FIFO (Go channel of capacity MaxOpenRequests-1) and the per-promise rendezvous channels behave as mutex / bounded FIFO / hand-off",
         "read deadlines are events (recvTimeout); the server is an arbitrary byte source (any chunks, close, silence)",
         "a partial write error is a plain send failure (nothing of the request counts as written)",
-        "decoding of a delivered body (versionedDecode in sendAndReceive) is outside the connection model (C09/C10)"],
+        "decoding of a delivered body (versionedDecode in sendAndReceive) is outside the connection model (C09/C10)",
+        "a caller whose promise is enqueued waits for it until the receive loop completes it (the pinned sendAndReceive has no give-up path; "
+        "the hand-over of a result to the caller is atomic with the completion): a call that returns while its promise is pending in the model is a "
+        "correspondence failure, and a receive loop stuck on an abandoned promise shows as hanging calls / Connected() / Close() in the oracle",
+        "ownership of the delivered bytes (the caller's decoded response aliases the body buffer) is not in the model: it is checked on the "
+        "implementation by the response-content oracle (byte fields compared when the call returns and again after other responses were read)"],
     trusted_base=["the harness's in-memory net.Conn (exact logging of writes, sends, closes and read time-outs in one total order)"],
 )
 CFG["manifest"] = dict(
@@ -66,10 +71,16 @@ CFG["manifest"] = dict(
          "after the first fault every outstanding and later call gets that error and the receiver never blocks again; wire order = promise order with ids "
          "c0,c0+1,…; requests awaiting a response <= MaxOpenRequests for the repaired write order and <= MaxOpenRequests+1 for the pinned order, with a "
          "kernel-checked trace reaching +1. Tie: getHeaderLength and the length check of responseHeader.decode are re-translated from /repo and proved equal "
-         "to the model; every run drives the real Broker (1-16 goroutines, MaxOpenRequests 1/2/5) against a scripted server, judges each call by the property "
-         "oracle and replays the totally ordered log of writes/sends/time-outs/returns through the model's step.",
+         "to the model; every run drives the real Broker (1-16 goroutines, MaxOpenRequests 1/2/5; Metadata, FindCoordinator, ListPartitionReassignments "
+         "(header v1), Produce without response, and Fetch/JoinGroup/SyncGroup/DescribeGroups whose responses carry raw byte fields marked per request) against a "
+         "scripted server - fast, or slow-but-alive (every answer just under Net.ReadTimeout with several calls pipelined) followed by each kind of fault, later calls, "
+         "Connected() and Close() - judges each call by the property oracle (own response incl. all byte fields, compared when the call returns and again after the "
+         "other responses of the connection were read; nothing delivered after a fault; every call, Connected() and Close() return within a bound) and replays the "
+         "totally ordered log of writes/sends/time-outs/returns through the model's step.",
     note="Trusted: Lean kernel; translator + GoSem for the two bridged fragments; the harness connection and line protocol. Modelled not verified: Go's mutex/"
          "channel semantics, read deadlines as events, unbounded correlation ids. The tagged-field check of header v1 and the body size are tied by trace "
-         "correspondence only. The pinned tree writes before the blocking enqueue: MaxOpenRequests+1 requests on the wire (known finding).",
+         "correspondence only. The pinned tree writes before the blocking enqueue: MaxOpenRequests+1 requests on the wire (known finding). "
+         "The model has no 'caller gave up waiting' event (the code has none): such a return is rejected by the replay. Buffer ownership of delivered bodies is checked on the "
+         "implementation only. A fatal Go runtime error of the code under test is reported with the connections that were running (harness supervisor process).",
     technique="Lean 4 proof (invariants by induction over event traces) + regenerated bridge obligations + trace validation of the real code",
 )
